@@ -391,6 +391,122 @@ def template_slots(tmpl: bytes) -> List[bool]:
     return out
 
 
+def symbolic_text_cells(fn: ast.AST) -> Dict[str, int]:
+    """Evaluate a small pure string-building function on a symbolic matrix: `mat[i, j]` becomes the word <i,j>; loops over range(<int>)
+    and comprehensions are unrolled.  Returns {"i, j": index of that word in the whitespace-split result}.  Unsupported constructs raise."""
+    param = fn.args.args[0].arg    # type: ignore[attr-defined]
+    MARK = '\x00'
+
+    class Unsupported(Exception):
+        pass
+
+    def ev(e: ast.AST, env: Dict[str, Any]) -> Any:
+        if isinstance(e, ast.Constant):
+            return e.value
+        if isinstance(e, ast.Name):
+            if e.id in env:
+                return env[e.id]
+            raise Unsupported(e.id)
+        if isinstance(e, ast.Tuple):
+            return tuple(ev(x, env) for x in e.elts)
+        if isinstance(e, ast.List):
+            return [ev(x, env) for x in e.elts]
+        if isinstance(e, ast.Subscript) and dotted(e.value) == param:
+            idx = ev(e.slice, env)
+            if isinstance(idx, tuple) and len(idx) == 2 and all(isinstance(i, int) for i in idx):
+                return f'{MARK}{idx[0]},{idx[1]}{MARK}'
+            raise Unsupported('matrix index')
+        if isinstance(e, ast.JoinedStr):
+            out = ''
+            for v in e.values:
+                if isinstance(v, ast.Constant):
+                    out += str(v.value)
+                elif isinstance(v, ast.FormattedValue):
+                    out += str(ev(v.value, env))
+                else:
+                    raise Unsupported('fstring part')
+            return out
+        if isinstance(e, ast.BinOp) and isinstance(e.op, ast.Add):
+            a, b = ev(e.left, env), ev(e.right, env)
+            if type(a) is type(b) and isinstance(a, (str, list)):
+                return a + b
+            raise Unsupported('+')
+        if isinstance(e, (ast.ListComp, ast.GeneratorExp)):
+            res: List[Any] = []
+
+            def gen(k: int, env2: Dict[str, Any]) -> None:
+                if k == len(e.generators):
+                    res.append(ev(e.elt, env2))
+                    return
+                g = e.generators[k]
+                if g.ifs or not isinstance(g.target, ast.Name):
+                    raise Unsupported('comprehension shape')
+                for item in ev(g.iter, env2):
+                    gen(k + 1, {**env2, g.target.id: item})
+            gen(0, env)
+            return res
+        if isinstance(e, ast.Call):
+            d = dotted(e.func) or ''
+            if d == 'range':
+                args = [ev(a, env) for a in e.args]
+                if all(isinstance(a, int) for a in args):
+                    return list(range(*args))
+                raise Unsupported('range of a non-constant')
+            if d in ('str', 'repr', 'format', 'format_float') and e.args:
+                return str(ev(e.args[0], env))
+            if isinstance(e.func, ast.Attribute) and e.func.attr == 'join' and len(e.args) == 1:
+                sep = ev(e.func.value, env)
+                items = ev(e.args[0], env)
+                if isinstance(sep, str) and isinstance(items, list) and all(isinstance(i, str) for i in items):
+                    return sep.join(items)
+            if isinstance(e.func, ast.Attribute) and e.func.attr == 'format' and isinstance(e.func.value, ast.Constant) and isinstance(e.func.value.value, str):
+                return e.func.value.value.format(*[ev(a, env) for a in e.args])
+            raise Unsupported(f'call {d}')
+        raise Unsupported(type(e).__name__)
+
+    def run_block(stmts: Any, env: Dict[str, Any]) -> Any:
+        for st in stmts:
+            if isinstance(st, ast.Expr) and isinstance(st.value, ast.Constant):
+                continue
+            if isinstance(st, ast.Return):
+                return ('ret', ev(st.value, env))
+            if isinstance(st, (ast.Assign, ast.AnnAssign)) and st.value is not None:
+                tg = st.targets[0] if isinstance(st, ast.Assign) else st.target
+                if not isinstance(tg, ast.Name):
+                    raise Unsupported('assignment target')
+                env[tg.id] = ev(st.value, env)
+                continue
+            if isinstance(st, ast.AugAssign) and isinstance(st.target, ast.Name) and isinstance(st.op, ast.Add):
+                env[st.target.id] = env[st.target.id] + ev(st.value, env)
+                continue
+            if isinstance(st, ast.Expr) and isinstance(st.value, ast.Call) and isinstance(st.value.func, ast.Attribute) and st.value.func.attr in ('append', 'extend') \
+                    and isinstance(st.value.func.value, ast.Name):
+                lst = env[st.value.func.value.id]
+                v = ev(st.value.args[0], env)
+                lst.append(v) if st.value.func.attr == 'append' else lst.extend(v)
+                continue
+            if isinstance(st, ast.For) and isinstance(st.target, ast.Name):
+                for item in ev(st.iter, env):
+                    env[st.target.id] = item
+                    r = run_block(st.body, env)
+                    if r is not None:
+                        return r
+                continue
+            raise Unsupported(type(st).__name__)
+        return None
+    try:
+        r = run_block(fn.body, {})     # type: ignore[attr-defined]
+    except (Unsupported, KeyError, StopIteration, TypeError, ValueError, IndexError) as exc:
+        raise AnalysisError(f'{getattr(fn, "name", "?")}: text construction not evaluable symbolically ({exc})') from None
+    if r is None or not isinstance(r[1], str):
+        raise AnalysisError(f'{getattr(fn, "name", "?")}: no string result')
+    out: Dict[str, int] = {}
+    for i, w in enumerate(r[1].split()):
+        if w.startswith(MARK) and w.endswith(MARK) and len(w) > 2:
+            out[w[1:-1].replace(',', ', ')] = i
+    return out
+
+
 def run(ctx: Any, prog: Program) -> None:
     dmx = prog.module('dmx')
     fold = Folder(prog, dmx)
@@ -566,16 +682,8 @@ def run(ctx: Any, prog: Program) -> None:
                 for i, a in enumerate(c.args):
                     if isinstance(a, ast.Subscript) and dotted(a.value) == 'mat':
                         out[ast.unparse(a.slice)] = i
-        if not out:   # text form: f-string lines, 4 numbers per line
-            pos = 0
-            for js in [n for n in ast.walk(fn) if isinstance(n, ast.JoinedStr)]:
-                for v in js.values:
-                    if isinstance(v, ast.FormattedValue):
-                        if isinstance(v.value, ast.Subscript) and dotted(v.value.value) == 'mat':
-                            out[ast.unparse(v.value.slice)] = pos
-                        pos += 1
-                    elif isinstance(v, ast.Constant):
-                        pos += len([w for w in str(v.value).split() if w])
+        if not out:   # text form: evaluate the string construction on a symbolic matrix
+            out = symbolic_text_cells(fn)
         return out
 
     def cells_read(fn: ast.AST) -> Dict[str, int]:
@@ -589,6 +697,8 @@ def run(ctx: Any, prog: Program) -> None:
         return out
     for wname, rname in (('_conv_matrix_to_binary', '_conv_binary_to_matrix'), ('_conv_matrix_to_string', '_conv_string_to_matrix')):
         w_, r_ = cells_written(dmx.func(wname)), cells_read(dmx.func(rname))
+        w_ = {k.strip('()').replace(' ', ''): v for k, v in w_.items()}
+        r_ = {k.strip('()').replace(' ', ''): v for k, v in r_.items()}
         if len(w_) != 9 or len(r_) != 9:
             raise AnalysisError(f'{wname}/{rname}: 3x3 cell placement not recognised ({len(w_)}/{len(r_)} cells)')
         for cell in sorted(w_):
@@ -747,6 +857,8 @@ def run(ctx: Any, prog: Program) -> None:
 
 
 MUTANTS: List[Dict[str, Any]] = [
+    {'id': 'matrix_text_rows_are_columns', 'file': 'dmx.py', 'find': "    return (\n        f'{mat[0, 0]} {mat[0, 1]} {mat[0, 2]} 0.0\\n'\n        f'{mat[1, 0]} {mat[1, 1]} {mat[1, 2]} 0.0\\n'\n        f'{mat[2, 0]} {mat[2, 1]} {mat[2, 2]} 0.0\\n'\n        '0.0 0.0 0.0 1.0'\n    )", 'replace': "    rows = [' '.join([str(mat[x, y]) for x in range(3)]) + ' 0.0' for y in range(3)]\n    rows.append('0.0 0.0 0.0 1.0')\n    return '\\n'.join(rows)", 'expect': 'C14.X4'},
+    {'id': 'matrix_text_rows_by_comprehension', 'file': 'dmx.py', 'find': "    return (\n        f'{mat[0, 0]} {mat[0, 1]} {mat[0, 2]} 0.0\\n'\n        f'{mat[1, 0]} {mat[1, 1]} {mat[1, 2]} 0.0\\n'\n        f'{mat[2, 0]} {mat[2, 1]} {mat[2, 2]} 0.0\\n'\n        '0.0 0.0 0.0 1.0'\n    )", 'replace': "    rows = [' '.join([str(mat[y, x]) for x in range(3)]) + ' 0.0' for y in range(3)]\n    rows.append('0.0 0.0 0.0 1.0')\n    return '\\n'.join(rows)", 'expect': None},
     {'id': 'array_code_ge', 'file': 'dmx.py', 'find': "                if attr_type_data > ARRAY_OFFSET:", 'replace': "                if attr_type_data >= ARRAY_OFFSET:", 'expect': 'C14.X1'},
     {'id': 'array_offset_13', 'file': 'dmx.py', 'find': "ARRAY_OFFSET: Final = 14", 'replace': "ARRAY_OFFSET: Final = 13", 'expect': 'C14.X1'},
     {'id': 'array_offset_16_ok', 'file': 'dmx.py', 'find': "ARRAY_OFFSET: Final = 14", 'replace': "ARRAY_OFFSET: Final = 16", 'expect': None, 'note': 'negative control: a different but still bijective code layout'},
